@@ -47,3 +47,9 @@ pub assume_specification<T, F: FnMut(&T, &T) -> std::cmp::Ordering> [<[T]>::sort
         final(v)@.to_multiset() == old(v)@.to_multiset(),
         final(v)@.len() == old(v)@.len(),
         forall|i: int, j: int| 0 <= i < j < final(v)@.len() ==> cmp_not_greater(f, #[trigger] final(v)@[i], #[trigger] final(v)@[j]);
+
+/// <[u32]>::to_vec copies the elements (stated for Copy element types via the view equality)
+pub assume_specification<T: Clone> [<[T]>::to_vec] (s: &[T]) -> (r: Vec<T>)
+    ensures
+        r@.len() == s@.len(),
+        forall|i: int| 0 <= i < s@.len() ==> cloned(#[trigger] s@[i], r@[i]);
